@@ -1290,6 +1290,11 @@ impl ServerSession {
             ],
         };
 
+        // Packets must be serialized in the order they are returned (and sent), as the chunk
+        // headers of later packets are compressed against the earlier ones.
+        let reset_payload = reset_message.into_message_payload(self.get_epoch(), stream_id)?;
+        let reset_packet = self.serializer.serialize(&reset_payload, false, false)?;
+
         let stream_begin_payload =
             stream_begin_message.into_message_payload(self.get_epoch(), stream_id)?;
         let stream_begin_packet = self
@@ -1304,9 +1309,6 @@ impl ServerSession {
 
         let data2_payload = data2_message.into_message_payload(self.get_epoch(), stream_id)?;
         let data2_packet = self.serializer.serialize(&data2_payload, false, false)?;
-
-        let reset_payload = reset_message.into_message_payload(self.get_epoch(), stream_id)?;
-        let reset_packet = self.serializer.serialize(&reset_payload, false, false)?;
 
         Ok(vec![
             ServerSessionResult::OutboundResponse(reset_packet),
